@@ -111,7 +111,8 @@ def seed_bucket(what, oa=None, ob=None):
 def history_bucket(what, base, obs):
     sb = (base or {}).get('state') or {}
     so = (obs or {}).get('state') or {}
-    if sb.get('too_much') != so.get('too_much'):
+    if sb.get('too_much') is not None and so.get('too_much') is not None and \
+            sb.get('too_much') != so.get('too_much'):
         return 'history:parser_switch_leak:TOO_MUCH=%s' % so.get('too_much')
     return 'history:' + what[0]
 
@@ -483,6 +484,7 @@ def shard(ctx, col):
     for it in items:
         for p, o in base[it['id']]['multi']:
             baseline[(it['id'], p)] = o
+    n_known = [0]
     for si, hs in enumerate(alt_seeds):
         # the first alternative seed sees everything, further seeds the generated part
         sub_items = items if si == 0 else [it for it in items if it['id'].startswith('gen')]
@@ -536,6 +538,10 @@ def shard(ctx, col):
                 col.case(key, nt, labels + (['multiset'] if ms else []),
                          sample={'kind': 'seeds', 'seeds': [hs0, hs], 'predicate': p,
                                  'program': it['text'][:1500]})
+                if d and history_bucket(d, oa, ob) in CONFIRMED and n_known[0] >= 3:
+                    # bounded work once a history dependence of this kind is established
+                    col._fail_count[history_bucket(d, oa, ob)] += 1
+                    continue
                 if d:
                     single = {'kind': 'seeds', 'pool': {it['id']: pool[it['id']]},
                               'steps': [['compile', it['id'], p]], 'seeds': [hs0, hs]}
@@ -549,7 +555,7 @@ def shard(ctx, col):
                                                   history_bucket(d, oa, ob)):
                         # not the hash seed: one of the two batch subprocesses gives a
                         # text that depends on what it compiled before (reported there)
-                        pass
+                        n_known[0] += 1
                     else:
                         # shows only inside the batches and is not reproduced from them
                         col.inconc('seed_difference_only_inside_batch')
